@@ -451,7 +451,8 @@ fn check_series(start: f64, incs: &[f64], ys: &[f64], nan_mask: &[bool], ops: &[
             Err(f) => return Verdict::Fail(f),
         };
         // not collapsed
-        if range > 0.0 {
+        // (a span of a few ulps can legitimately vanish when the abscissae are moved to a larger magnitude)
+        if range > 16.0 * ulp(cm.xabs().max(parent.xabs()).max(1e-300)) {
             let crange = cm.xs[cm.xs.len() - 1] - cm.xs[0];
             ensure!(crange > 0.0, format!("C17/{site}/collapsed"), "{site}: parent spans {range:e} but the result collapsed to a single abscissa {:?}", cm.xs);
         }
@@ -478,7 +479,7 @@ fn check_series(start: f64, incs: &[f64], ys: &[f64], nan_mask: &[bool], ops: &[
             Op::ResampledX { frac } => {
                 let dx = frac * range;
                 for w in cm.xs.windows(2) {
-                    ensure!(w[1] - w[0] <= dx * (1.0 + 1e-9), "C17/resampled_x/spacing", "spacing {:e} exceeds requested {dx:e}", w[1] - w[0]);
+                    ensure!(w[1] - w[0] <= dx * (1.0 + 1e-9) + 4.0 * ulp(cm.xabs().max(1e-300)), "C17/resampled_x/spacing", "spacing {:e} exceeds requested {dx:e}", w[1] - w[0]);
                 }
                 ensure!(cm.xs[0] == parent.xs[0] && (*cm.xs.last().unwrap() - parent.xs[n - 1]).abs() <= 4.0 * ulp(parent.xabs().max(1e-300)), "C17/resampled_x/ends", "resampled_x does not span the parent: [{:e},{:e}] vs [{:e},{:e}]", cm.xs[0], cm.xs.last().unwrap(), parent.xs[0], parent.xs[n - 1]);
             }
